@@ -147,8 +147,9 @@ SRC_TIE = {
     'C11': {'Writer': ['VbsWriter.write', 'VbsWriter.close', 'VbsWriter.__exit__']},
     'C09': {'Reader': ['VbsReader.__next__']},
     'C10': {'Reader': ['VbsReader.__next__']},
-    'C04': {'Block': ['Block1014.write', 'Block1014.finalise']},
-    'C05': {'Unblock': ['Unblock1014.read', 'Block1014.write', 'Block1014.finalise']},
+    'C04': {'Block': ['Block1014.write', 'Block1014.finalise'], 'OneShot': ['block_1014', 'unblock_1014']},
+    'C05': {'Unblock': ['Unblock1014.read', 'Block1014.write', 'Block1014.finalise'],
+            'OneShot': ['block_1014', 'unblock_1014']},
     'C01': {'Bits': ['BitArray.tolist', 'BitArray.fromlist'], 'Conv': ['_pytype_to_string', '_string_to_pytype']},
     'C02': {'Bits': ['BitArray.tolist', 'BitArray.fromlist'], 'Field': ['_get_field_length', '_field_to_iso8583', '_iso8583_to_field_frame'],
             'EncLoop': ['_dict_to_iso8583_loop', 'BitArray.fromlist'], 'Conv': ['_pytype_to_string', '_string_to_pytype']},
